@@ -491,4 +491,38 @@ pub proof fn lemma_ps6(s: Seq<u8>, d: Seq<u8>, proto: int, len: int)
 /// TCP segment with the checksum field (bytes 16, 17) taken as zero (16 is even, so leaving the word out is the same as zeroing it)
 pub open spec fn tcp_seg_be(seg: Seq<u8>) -> int { wsum_be_all(seg.subrange(0, 16)) + wsum_be_all(seg.subrange(18, seg.len() as int)) }
 
+
+// ------------------------------------------------------------------------------------------------------------------
+// header fields summed through `to_be_bytes()`: native-endian word(s) of a 16 / 32 bit field and their big-endian value
+// ------------------------------------------------------------------------------------------------------------------
+
+/// native-endian word of a 16 bit field whose big-endian bytes are summed
+pub open spec fn f16_le(x: int) -> int { crate::vx::b16(x, 0) + 256 * crate::vx::b16(x, 1) }
+pub proof fn lemma_f16(x: int)
+    requires 0 <= x <= 65535
+    ensures 256 * f16_le(x) == x + 65535 * (x % 256), f16_le(x) >= 0, 0 <= x % 256 <= 255,
+{
+    reveal(crate::vx::b16);
+    vstd::arithmetic::div_mod::lemma_fundamental_div_mod(x, 256);
+}
+/// big-endian value of the two words of a 32 bit field (RFC 1071 sums it as two 16 bit words)
+#[verifier::opaque]
+pub open spec fn f32_be(x: int) -> int { x / 65536 + x % 65536 }
+#[verifier::opaque]
+pub open spec fn f32_k(x: int) -> int { (x / 65536) % 256 + x % 256 }
+pub proof fn lemma_f32(x: int)
+    requires 0 <= x <= 0xffff_ffff
+    ensures 256 * len32_le(x) == f32_be(x) + 65535 * f32_k(x), len32_le(x) >= 0, f32_be(x) >= 0, f32_k(x) >= 0, f32_be(x) == 0 ==> f32_k(x) == 0,
+{
+    reveal(f32_be); reveal(f32_k); reveal(crate::vx::b32);
+    let hi = x / 65536; let lo = x % 65536;
+    vstd::arithmetic::div_mod::lemma_fundamental_div_mod(x, 65536);
+    vstd::arithmetic::div_mod::lemma_fundamental_div_mod(hi, 256);
+    vstd::arithmetic::div_mod::lemma_fundamental_div_mod(lo, 256);
+    assert(x / 16777216 == hi / 256 && (x / 256) % 256 == lo / 256 && x % 256 == lo % 256) by {
+        let y = x as u32;
+        assert((y / 16777216u32) == (y / 65536u32) / 256u32 && (y / 256u32) % 256u32 == (y % 65536u32) / 256u32 && y % 256u32 == (y % 65536u32) % 256u32) by(bit_vector);
+    }
+}
+
 } // verus!
